@@ -12,8 +12,11 @@ import Operon.Model.Atp
   in the source; when the withdrawal failed the code does not take the peer's lock at all, which the model renders
   as a deposit region that changes nothing (a stuttering region: same final state, same return values).
 
-  Not modelled: `apply_debt_interest` (runs without the lock and is not in the property's operation list), the
-  background regeneration thread, preemption inside a source line.
+  The background regeneration thread (`regeneration_rate > 0`) is one more thread: each pass of its loop is the
+  `regenerate` region with amount `int(rate)` (`tickAct`, `regenThread`).
+
+  Not modelled: `apply_debt_interest` (runs without the lock and is not in the property's operation list),
+  preemption inside a source line.
 -/
 namespace Operon.AtpConc
 open Operon.Lock Operon.Atp
@@ -47,6 +50,17 @@ def Call.acts : Call → List Act
   | .regenerate i n cur => [.regenerate i n cur]
   | .convert i n => [.convert i n]
   | .transfer s d n cur => [.withdraw s n cur, .deposit d n cur]
+
+/-- One pass of the background regeneration loop of a store built with `regeneration_rate = r > 0`
+    (`_start_regeneration`: `while not stopped: sleep(1); regenerate(int(self.regeneration_rate))`): the region of
+    `regenerate` with amount `int(r)` in ATP.  The background thread is therefore just one more thread whose program is
+    a list of these. -/
+def tickAct (j : Nat) (intRate : Nat) : Act := .regenerate j intRate .atp
+
+def tickCall (j : Nat) (intRate : Nat) : Call := .regenerate j intRate .atp
+
+/-- the background thread that makes `k` passes before it is stopped -/
+def regenThread (j intRate k : Nat) : List Call := List.replicate k (tickCall j intRate)
 
 def Call.isTransfer : Call → Bool
   | .transfer .. => true
